@@ -282,7 +282,7 @@ type tcpWorld struct {
 	amb      int
 	max      int
 	info     types.ClusterInfo
-	slow     bool // an observation did not reach the reference values in time: use short waits from now on
+	slow     bool   // an observation did not reach the reference values in time: use short waits from now on
 	skew     string // c10t9: why this run of the script is unusable (environment, not MOSN); "" = usable
 }
 
